@@ -8,4 +8,6 @@ CHECKERS = dict(C02_rt.CHECKERS)
 def run(ctx):
     api.run_vcs(ctx, C02_vc.vcs(ctx), {"C02.S.edits_of_min_cost_alignment": "real error_rate/prefix_error_rates source: result within [fewest, most] edits of minimum-cost alignments; = unit Levenshtein for equal costs; norm and empty-reference convention; padding"},
                 bounded="shapes R,H in 0..%d (N=2 when R+H<=1 else 1), flag grid; ALL token values, eos values, positive real cost triples, padding values" % (2 if ctx.quick else 3))
+    api.run_vcs(ctx, C02_vc.mer_vcs(ctx), {"C02.mer.formula_vc": "real minimum_error_rate_loss source with error_rate replaced by its contract: every option forwarded, each column pairs reference n with sample (n,m), loss = softmax(log_probs)[n,m] * (er - mean) reduced as requested"},
+                bounded="(N,M,R,H) = (2,2,2,1) [(1,3,1,2) thorough], 2-D / 3-D references, both layouts, sub_avg, 3 reductions, norm; ALL contents")
     C02_rt.run_bounded(ctx)
